@@ -281,6 +281,92 @@ def install(eng):
   try:
     import jax
     R(jax.tree_util.tree_map, _tree_map, 'jax.tree_util.tree_map (leaf-wise application over tuples/lists/dicts)')
-    R(jax.named_call, h_identity, 'jax.named_call')
+    R(jax.named_call, h_identity, "jax.named_call")
+    install_jax(eng)
   except ImportError:  # pragma: no cover
     pass
+
+
+# ------------------------------------------------------------------------------------
+# scan as a loop with a caller-supplied invariant (assumed contract of lax.scan, A8):
+#   scan(f, c0, xs, n) == c = c0; ys = []; for k in range(n): c, y = f(c, xs[k]); ys.append(y); (c, stack(ys))
+
+
+def h_scan(en, f, init, xs=None, length=None, **kw):
+  if kw:
+    raise E.Unsupported(f'scan keyword arguments {list(kw)}')
+  env = getattr(en, '_cur_env', None)
+  fname = env.func.name if env is not None and hasattr(env, 'func') else '?'
+  ordinal = next(env.scan_counter) if env is not None and hasattr(env, 'scan_counter') else 0
+  key = (fname, ordinal)
+  if key not in en.scan_spec:
+    raise E.Unsupported(f'scan call {key} has no invariant')
+  spec = en.scan_spec[key]
+  if length is not None:
+    n = length
+  elif isinstance(xs, E.SymSeq):
+    n = xs.length
+  elif isinstance(xs, (list, tuple)):
+    n = len(xs)
+  else:
+    raise E.Unsupported('scan without length over a non-sequence xs')
+  inv = spec['inv']
+  out_sort = spec.get('out_sort')
+
+  def mk_ys(length_, base):
+    if out_sort is None:
+      return None
+    return en.seq(en.fresh_name(base), out_sort, register=False, length=length_)
+
+  def x_at(k):
+    if xs is None:
+      return None
+    if isinstance(xs, E.SymSeq):
+      return xs.get(k)
+    raise E.Unsupported('scan over concrete xs with symbolic index')
+
+  ys0 = mk_ys(z3.IntVal(0), 'ys0')
+  for nm, c in inv(en, env, z3.IntVal(0), init, ys0):
+    en.ensure(f'scan{key}:invariant-initially:{nm}', c)
+  branch = en.fork(2)
+  if branch == 0:
+    k = z3.Int(en.fresh_name('k'))
+    en.assume(z3.And(k >= 0, k < E.to_z3(n)))
+    carry = spec['fresh_carry'](en, init) if 'fresh_carry' in spec else en.fresh_like(init, 'carry')
+    ys = mk_ys(k, 'ys')
+    for nm, c in inv(en, env, k, carry, ys):
+      en.assume(c)
+    res = en.call(f, [carry, x_at(k)], {})
+    if not (isinstance(res, tuple) and len(res) == 2):
+      raise E.Unsupported('scan body did not return a (carry, y) pair')
+    c2, y = res
+    if out_sort is None:
+      if y is not None:
+        raise E.Unsupported('scan body returns outputs but the scan spec declares none')
+      ys2 = None
+    else:
+      if y is None:
+        raise E.Unsupported('scan body returns no outputs but the scan spec declares a sort')
+      old = ys
+      ys2 = E.SymSeq(k + 1, (lambda old, k, y: (lambda i: z3.If(E.to_z3(i) == k, y, old.get(i))))(old, k, y), out_sort, 'ys+')
+    for nm, c in inv(en, env, k + 1, c2, ys2):
+      en.ensure(f'scan{key}:invariant-preserved:{nm}', c)
+    raise E.PathAbort()
+  carry = spec['fresh_carry'](en, init) if 'fresh_carry' in spec else en.fresh_like(init, 'carryN')
+  ysn = mk_ys(E.to_z3(n), 'ysN')
+  for nm, c in inv(en, env, E.to_z3(n), carry, ysn):
+    en.assume(c)
+  return (carry, ysn)
+
+
+SCAN = E.SymCallable(h_scan, 'scan (assumed contract of lax.scan: sequential fold, A8)')
+
+ZEROS_LIKE = z3.Function('zeros_like', E.V, E.V)
+
+
+def install_jax(eng):
+  import jax
+  import jax.numpy as jnp
+  _reg(eng, jax.lax.scan, h_scan, 'jax.lax.scan = sequential fold (A8)')
+  _reg(eng, jnp.zeros_like, lambda en, x: ZEROS_LIKE(x) if E.is_sym(x) else jnp.zeros_like(x), 'jnp.zeros_like')
+  _reg(eng, jnp.negative, lambda en, x: en.vec('neg', x) if E.is_sym(x) and x.sort() == E.V else -x, 'jnp.negative')
